@@ -660,7 +660,7 @@ def build_cases(ctx):
         pass
     n_corpus = len(cases)
     n_models = ctx.scaled(60, 150)
-    per = ctx.scaled(10, 16)
+    per = ctx.scaled(8, 16)
     full = all_option_sets()
     for mi in range(n_models):
         mdl = gen_model(rng, big=(mi % 5 == 0))
